@@ -297,10 +297,32 @@ func tableStepNonNegative(p *Prog) (bool, string) {
 			if !isS {
 				return
 			}
+			// a table of the package: a package-level []int, written directly or through a pointer to it kept in a
+			// table-driven initialiser (*entry.lookup = append(*entry.lookup, ...))
 			g, isG := st.Addr.(*ssa.Global)
-			if !isG || !strings.Contains(strings.ToLower(g.Name()), "lookup") {
+			if isG && !strings.Contains(strings.ToLower(g.Name()), "lookup") {
 				return
 			}
+			if !isG {
+				pt, isP := st.Addr.Type().(*types.Pointer)
+				if !isP {
+					return
+				}
+				sl, isSl := pt.Elem().Underlying().(*types.Slice)
+				if !isSl || !isIntegral(sl.Elem()) {
+					return
+				}
+				if _, isAlloc := st.Addr.(*ssa.Alloc); isAlloc {
+					return // a local slice variable
+				}
+				if _, isIA := st.Addr.(*ssa.IndexAddr); isIA {
+					return
+				}
+				if _, isFA := st.Addr.(*ssa.FieldAddr); isFA {
+					return
+				}
+			}
+			self := st.Addr
 			// the stored table: the table itself extended by append(...) calls (directly, or built up in a loop), every
 			// appended entry proved >= 1
 			seen := map[ssa.Value]bool{}
@@ -322,8 +344,17 @@ func tableStepNonNegative(p *Prog) (bool, string) {
 				case *ssa.Const:
 					return x.Value == nil
 				case *ssa.UnOp:
-					g2, ok := x.X.(*ssa.Global)
-					return ok && x.Op == token.MUL && g2 == g
+					if x.Op != token.MUL {
+						return false
+					}
+					if g2, ok := x.X.(*ssa.Global); ok && isG && g2 == g {
+						return true
+					}
+					if x.X == self {
+						return true // the same table, read through the same pointer
+					}
+					a, b := AccessPath(x.X), AccessPath(self)
+					return a.Root == b.Root && a.String() == b.String() && len(a.Sel) > 0
 				case *ssa.Call:
 					if bi, ok := x.Call.Value.(*ssa.Builtin); !ok || bi.Name() != "append" || len(x.Call.Args) != 2 {
 						return false
